@@ -333,3 +333,24 @@ Definition judge_c20_file (io : list Z) : list Z :=
       end
   | _ => [0; 99]
   end.
+
+(* c20_huge: files too large to be passed as numbers (9..40 MiB, generated by the harness from a seed; a
+   non-blank line starts on every multiple of 1 MiB). The harness compares the multiset of delivered
+   lines with the multiset of non-blank lines of the file and reports counters:
+     [seed; mib; epoch] ++ [status; expected; delivered; missing; extra; maxLineLen; boundaryStarts]
+   Clauses: 1 = a chunker call failed (status), 2 = a non-blank line was not delivered (missing),
+   3 = something was delivered that is not a (remaining) line of the file (extra), 4 = the number of
+   deliveries differs from the number of non-blank lines, 5 = the generated file is outside the
+   documented format (a line of 4096 bytes or more) or has no line starting on a 1 MiB boundary (the
+   case would not test what it is meant to), 9x = malformed observation (a panic lands here). *)
+Definition judge_c20_huge (io : list Z) : list Z :=
+  match io with
+  | [_; mib; _; status; expected; delivered; missing; extra; maxlen; starts] =>
+      if (4096 <=? maxlen) || (starts <? mib - 1) then [0; 5]
+      else if negb (status =? 0) then [0; 1; status]
+      else if negb (missing =? 0) then [0; 2; missing]
+      else if negb (extra =? 0) then [0; 3; extra]
+      else if negb (delivered =? expected) then [0; 4]
+      else [1]
+  | _ => [0; 99]
+  end.
